@@ -513,7 +513,7 @@ func (r *reader) curr() (ch rune, pos Pos) {
 }
 
 // eof is a marker code point to signify that the reader can't read any more.
-const eof = rune(0)
+const eof = rune(-1)
 
 // ScanDelimited reads a delimited set of runes
 func ScanDelimited(r io.RuneScanner, start, end rune, escapes map[rune]rune, escapesPassThru bool) ([]byte, error) {
